@@ -73,6 +73,15 @@ def run_scenario(sc):
     from props.c04 import build_response
     labels, obs = [], []
     res = {}
+    serial = [0]
+
+    def datagram(recs):
+        # every injected response gets its own message id: two byte-identical datagrams less than a second apart would be dropped by the
+        # listener's duplicate guard (C16) before they reach the record manager, and the labels here stand for responses that were processed
+        serial[0] += 1
+        b = bytearray(build_response(recs))
+        b[0:2] = serial[0].to_bytes(2, 'big')
+        return bytes(b)
     with Sim() as sim:
         cur = []
 
@@ -132,7 +141,7 @@ def run_scenario(sc):
                     await sim.sleep_until(t0 + dt)
                     labels.append(f"IPreload {cz(sim.now)} {clist(coq_rec(dict(r, created=sim.now)) for r in recs)}")
                     obs.append(None)
-                    sim.net.inject(b, build_response(recs), ('10.0.0.9', 5353))
+                    sim.net.inject(b, datagram(recs), ('10.0.0.9', 5353))
                 await sim.sleep_until(t0)
                 res['t0'] = t0
                 info = AsyncServiceInfo(T, NAME)
@@ -148,7 +157,7 @@ def run_scenario(sc):
                         await sim.sleep_until(t0 + dt)
                         labels.append(f"IResp {cz(sim.now)} {clist(coq_rec(dict(r, created=sim.now)) for r in recs)}")
                         obs.append(None)
-                        sim.net.inject(b, build_response(recs), ('10.0.0.9', 5353))
+                        sim.net.inject(b, datagram(recs), ('10.0.0.9', 5353))
                 import asyncio
                 inj = asyncio.ensure_future(inject_during())
                 ok = await info.async_request(b.zc, sc['timeout'], qt)
